@@ -54,7 +54,10 @@ def check_body(rep, key, exp, im, allowed_types, cfg):
     # 3. heap / dyn types that are not the user's own
     extra = heapy_types(im.get("body_tys", [])) - allowed_types
     # types of sub-expressions are compared by containment: a user type may appear inside a tuple etc.
-    extra = set(t for t in extra if not any(a in t or t in a for a in allowed_types))
+    # (a user type written behind a reference — `deps: &dyn Trait` — also appears without the `&`, e.g.
+    # as the Self type in the name of an async body's future)
+    cores = set(allowed_types) | set(re.sub(r"^(&(mut )?)+", "", a) for a in allowed_types)
+    extra = set(t for t in extra if not any(a in t or t in a for a in cores))
     if extra:
         rep.add("R-ZERO", key + " heap-type", "generated body mentions heap / trait-object types that are not in the user's signature: %s"
                 % sorted(extra), where=exp.label())
